@@ -136,6 +136,7 @@ def _second_opinion(pid, module, tier, root, seed, open_known):
         bad = [o for o in ctx2.obs if o.verdict == VIOLATED and o.construct not in open_known]
         return {'clean': not bad, 'inlined': ctx2.repo.expanded, 'violated': [o.construct for o in bad],
                 'verdicts': {o.construct: o.verdict for o in ctx2.obs},
+                'obs': {o.construct: o for o in ctx2.obs},
                 'byfunc': [(o.rule, o.clause, o.where.split()[-1] if o.where else '', o.verdict) for o in ctx2.obs]}
     except AnalysisError:
         return None
@@ -216,6 +217,29 @@ def run(pid, module, tier, root, seed, quiet=False, evidence=True):
                     o.detail = ''
             if not any(o.verdict == VIOLATED for o in ctx.obs):
                 floor_fail = []
+    if adopted is None and any(o.verdict == ASSUMED for o in ctx.obs):
+        # an obligation the rules could not decide on the source as written (shape outside the modelled subset) is decided
+        # on the helper-inlined equivalent form when the very same obligation gets a verdict there; obligations of the
+        # same rule and clause in the same function that only arise there (the rule got further) are taken over as well
+        so = second_opinion if second_opinion is not None else _second_opinion(pid, module, tier, root, seed, open_known)
+        if so is not None and so.get('obs'):
+            note = ' [decided on the equivalent form with the private helper(s) / delegated generator(s) ' \
+                   f'{", ".join(so["inlined"])} inlined]'
+            have = {o.construct for o in ctx.obs}
+            for o in list(ctx.obs):
+                if o.verdict != ASSUMED:
+                    continue
+                o2 = so['obs'].get(o.construct)
+                if o2 is None or o2.verdict == ASSUMED:
+                    continue
+                o.verdict, o.detail, o.instance = o2.verdict, o2.detail, o2.instance + note
+                fn = o.where.split()[-1] if o.where else ''
+                for c2, x in so['obs'].items():
+                    if c2 not in have and x.rule == o.rule and x.clause == o.clause and x.verdict == VIOLATED and \
+                            (x.where.split()[-1] if x.where else '') == fn:
+                        x.instance += note
+                        ctx.obs.append(x)
+                        have.add(c2)
     nviol = 0
     lines = []
     replay_paths = []
